@@ -118,7 +118,7 @@ class Lexicon(Persistent):
             # This is too efficient, so we raise an exception.
             raise QueryError(
                 "pattern %r shouldn't start with glob character" % pattern)
-        pat = prefix
+        pat = re.escape(prefix)
         for c in pattern:
             if c == "*":
                 pat += ".*"
@@ -126,8 +126,8 @@ class Lexicon(Persistent):
                 pat += "."
             else:
                 pat += re.escape(c)
-        pat += "$"
-        prog = re.compile(pat)
+        pat += r"\Z"
+        prog = re.compile(pat, re.DOTALL)
         keys = self._wids.keys(prefix) # Keys starting at prefix
         wids = []
         for key in keys:
